@@ -49,6 +49,13 @@ def cases(tier, seed):
             out.append({'kind': 'program', 'seed': case_seed('C12', seed, prog.name, rep), 'params': {'prog': prog.name, 'P': 1 + rep % 2, 'D': [3, 2, 5][rep % 3]}})
     for i in range(80 if tier == 'quick' else 20000):
         out.append({'kind': 'program', 'seed': case_seed('C12', seed, 'comp', i), 'params': {'prog': 'comp', 'P': 1 + i % 2, 'D': 2 + i % 4}})
+    # higher coefficients 1e9 times larger than the base point (a steep curve): decisions taken from the base point (pivots,
+    # ranks, repeated eigenvalues) must not look at them
+    for prog in progs.cat():
+        if ({'fact', 'linalg'} & prog.tags) and not ({'fancy', 'nonunique', 'scale'} & prog.tags):
+            for rep in range(1 if tier == 'quick' else 4):
+                out.append({'kind': 'program', 'seed': case_seed('C12', seed, prog.name, 'highscale', rep),
+                            'params': {'prog': prog.name, 'P': 1 + rep % 2, 'D': [2, 3][rep % 2], 'highscale': 1e9}})
     from .c01 import T as c01_table
     for name in sorted(c01_table().keys()):
         for pat in ('x1_zero', 'last_only', 'zeros_high', 'alternating'):
@@ -201,10 +208,14 @@ def _program(ctx, p, rng):
     xs = [gen.series_data(rng, D, P, shape, dom, 'random', False, 0.4) for shape, dom in ins]
     if prog is not None and not all(prog.in_domain([x[0, pp] for x in xs]) for pp in range(P)):
         ctx.skip('out_of_domain:regularity-condition'); return
+    if p.get('highscale'):
+        for x in xs:
+            x[1:] *= p['highscale']
+        return _sweeps(ctx, name + ':steep-curve', f, xs, D, P, rng, limit=1e80)
     return _sweeps(ctx, name, f, xs, D, P, rng)
 
 
-def _sweeps(ctx, name, f, xs, D, P, rng):
+def _sweeps(ctx, name, f, xs, D, P, rng, limit=1e8):
     probe.S.suppress = True
     try:
         try:
@@ -221,13 +232,14 @@ def _sweeps(ctx, name, f, xs, D, P, rng):
             try:
                 cg.pullback([UTPM(ybar.copy())])
                 xbfull = [fx.xbar.data.copy() for fx in cg.independentFunctionList]
-                if not all(np.all(np.isfinite(xb)) for xb in xbfull) or max(np.max(np.abs(xb)) for xb in xbfull) > 1e8:
-                    rev = False; ctx.skip('out_of_domain:nonfinite-or-huge-adjoint')
+                if all(np.all(np.isfinite(xb)) for xb in xbfull) and max(np.max(np.abs(xb)) for xb in xbfull) > limit:
+                    rev = False; ctx.skip('out_of_domain:huge-adjoint')
+                # a non-finite adjoint of the full run is compared below: out of the domain only if the reduced run is non-finite too
             except Exception:
                 rev = False
         except Exception:
             ctx.skip('replay-raises:' + name); return
-        if not np.all(np.isfinite(yfull)) or (yfull.size and np.max(np.abs(yfull)) > 1e8):
+        if not np.all(np.isfinite(yfull)) or (yfull.size and np.max(np.abs(yfull)) > limit):
             ctx.skip('out_of_domain:nonfinite'); return
         for Dp in range(1, D):
             cg.pushforward([UTPM(x[:Dp].copy()) for x in xs])
@@ -240,6 +252,8 @@ def _sweeps(ctx, name, f, xs, D, P, rng):
                 cg.pullback([UTPM(ybar[:Dp].copy())])
                 for fx, xb in zip(cg.independentFunctionList, xbfull):
                     x1 = fx.xbar.data
+                    if not np.all(np.isfinite(x1)):
+                        ctx.skip('out_of_domain:nonfinite-adjoint'); continue
                     s = _scale(x1) + 1e-9 * np.max(np.abs(ybar))
                     err = np.abs(xb[:Dp] - x1).reshape(Dp, -1).max(axis=1) / s
                     if not np.all(err <= TOL * 10):
